@@ -793,6 +793,126 @@ pub async fn start_listener_udp(w: &World, yaml_without_bind: &str) -> u16 {
     panic!("no free port");
 }
 
+/// a tunnel that dies while the relay holds undelivered bytes (its destination resets), then a fresh tunnel in the same
+/// process: the fresh tunnel's two byte streams must be exactly its own (buffered path and splice path)
+async fn cross_connection(out: &mut Out, rng: &mut Rng, thorough: bool) {
+    for splice in [false, true] {
+        let mut w = world(&[], 50);
+        Arc::get_mut(&mut w.state).unwrap().io_params = crate::config::IoParams { buffer_size: 65536, use_splice: splice };
+        {
+            let mut c = crate::connectors::from_value(&serde_yaml::from_str("name: direct\ntype: direct").unwrap()).unwrap();
+            c.init().await.unwrap();
+            Arc::get_mut(&mut w.state).unwrap().connectors.insert("direct".into(), c.into());
+        }
+        set_rules(&w, &[("direct".into(), None)]).await.unwrap();
+        {
+            // a short idle period: a tunnel that is stuck in a write towards a peer that never reads is ended by the idle timer
+            let st = Arc::get_mut(&mut w.state).unwrap();
+            if let Some(c) = Arc::get_mut(&mut st.contexts) {
+                c.default_timeout = 1;
+            }
+        }
+        let http = start_listener(&w, "name: http\ntype: http").await;
+        // origin S: accepts and never reads
+        let sl = TcpListener::bind("127.0.0.1:0").await.unwrap();
+        let sport = sl.local_addr().unwrap().port();
+        tokio::spawn(async move {
+            let mut keep = vec![];
+            while let Ok((s, _)) = sl.accept().await {
+                keep.push(s);
+            }
+        });
+        // origin R: reads a little, then resets the connection while the client keeps sending
+        let rl = TcpListener::bind("127.0.0.1:0").await.unwrap();
+        let rport = rl.local_addr().unwrap().port();
+        tokio::spawn(async move {
+            while let Ok((mut s, _)) = rl.accept().await {
+                tokio::spawn(async move {
+                    let mut b = [0u8; 16];
+                    let _ = s.read(&mut b).await;
+                    let _ = s.set_linger(Some(std::time::Duration::from_secs(0)));
+                    drop(s);
+                });
+            }
+        });
+        // origin E: echo until EOF
+        let el = TcpListener::bind("127.0.0.1:0").await.unwrap();
+        let eport = el.local_addr().unwrap().port();
+        tokio::spawn(async move {
+            while let Ok((mut s, _)) = el.accept().await {
+                tokio::spawn(async move {
+                    let mut got = vec![];
+                    let _ = s.read_to_end(&mut got).await;
+                    let _ = s.write_all(&got).await;
+                    let _ = s.shutdown().await;
+                });
+            }
+        });
+        tokio::time::sleep(std::time::Duration::from_millis(50)).await;
+        for round in 0..(if thorough { 12 } else { 4 }) {
+            // tunnel A: the secret goes towards an origin that resets
+            let secret: Vec<u8> = std::iter::repeat(b"A-PRIVATE-".iter().copied()).flatten().take(40_000 + 1000 * round).collect();
+            if let Ok(mut a) = TcpStream::connect(("127.0.0.1", http)).await {
+                let _ = a.write_all(format!("CONNECT 127.0.0.1:{} HTTP/1.1\r\nHost: x\r\n\r\n", rport).as_bytes()).await;
+                let mut r = vec![0u8; 39];
+                let _ = tokio::time::timeout(std::time::Duration::from_secs(3), a.read_exact(&mut r)).await;
+                for chunk in secret.chunks(4096) {
+                    if a.write_all(chunk).await.is_err() {
+                        break;
+                    }
+                    tokio::time::sleep(std::time::Duration::from_millis(1)).await;
+                }
+                let mut sink = vec![];
+                let _ = tokio::time::timeout(std::time::Duration::from_millis(300), a.read_to_end(&mut sink)).await;
+            }
+            // tunnel A': the secret goes towards an origin that never reads; the relay is stuck in the write until the idle timer ends it
+            if round % 2 == 0 {
+                if let Ok(mut a) = TcpStream::connect(("127.0.0.1", http)).await {
+                    let _ = a.write_all(format!("CONNECT 127.0.0.1:{} HTTP/1.1\r\nHost: x\r\n\r\n", sport).as_bytes()).await;
+                    let mut r = vec![0u8; 39];
+                    let _ = tokio::time::timeout(std::time::Duration::from_secs(3), a.read_exact(&mut r)).await;
+                    let big: Vec<u8> = std::iter::repeat(b"A-PRIVATE-".iter().copied()).flatten().take(1 << 20).collect();
+                    for _ in 0..16 {
+                        if tokio::time::timeout(std::time::Duration::from_millis(150), a.write_all(&big)).await.is_err() {
+                            break;
+                        }
+                    }
+                    // wait for the proxy to give the tunnel up (idle period 1 s + 1 s tick)
+                    let mut sink = vec![0u8; 64];
+                    let _ = tokio::time::timeout(std::time::Duration::from_millis(3500), a.read(&mut sink)).await;
+                }
+            }
+            // tunnels B1, B2: distinct payloads, echoed
+            for k in 0..2 {
+                let n = *rng.pick(&[1usize, 100, 5000, 70000]);
+                let payload: Vec<u8> = (0..n).map(|i| b'a' + ((i + k + round) % 23) as u8).collect();
+                let res: Option<Vec<u8>> = async {
+                    let mut b = TcpStream::connect(("127.0.0.1", http)).await.ok()?;
+                    b.write_all(format!("CONNECT 127.0.0.1:{} HTTP/1.1\r\nHost: x\r\n\r\n", eport).as_bytes()).await.ok()?;
+                    let mut r = vec![0u8; 39];
+                    tokio::time::timeout(std::time::Duration::from_secs(3), b.read_exact(&mut r)).await.ok()?.ok()?;
+                    b.write_all(&payload).await.ok()?;
+                    b.shutdown().await.ok()?;
+                    let (echo, _, _) = read_all(&mut b).await;
+                    Some(echo)
+                }
+                .await;
+                let ok = res.as_deref() == Some(&payload[..]);
+                out.case(&format!("XC {} {} {} {}", splice as u8, round, k, n), if ok { "ok" } else { "bad" });
+                out.stat("cross_connection_after_failure");
+                if !ok {
+                    let e = res.unwrap_or_default();
+                    let foreign = e.windows(9).any(|w| w == b"A-PRIVATE");
+                    out.oracle_fail(
+                        if foreign { "bytes-of-another-connection" } else { "bytes-lost" },
+                        &format!("splice={} round {}: after tunnels that died with undelivered bytes (origin reset; origin not reading until the idle timer fired), a fresh tunnel sent {} bytes and got back {} bytes ({}), starting with {:?}", splice, round, payload.len(), e.len(), if foreign { "containing bytes of the dead tunnel" } else { "not its own bytes" }, String::from_utf8_lossy(&e[..e.len().min(40)])),
+                    );
+                }
+            }
+        }
+    }
+}
+
 pub async fn run_c01(out: &mut Out) {
     let mut rng = Rng(out.seed() ^ 0xC01);
     let thorough = out.tier_thorough();
@@ -801,6 +921,7 @@ pub async fn run_c01(out: &mut Out) {
     e2e(out, &mut rng, "c01", thorough).await;
     chain_cases(out, &mut rng, thorough).await;
     secure_pairings(out, &mut rng, thorough).await;
+    cross_connection(out, &mut rng, thorough).await;
 }
 
 pub async fn run_c04(out: &mut Out) {
